@@ -1745,6 +1745,8 @@ class Valuation:
 
     def atom(self, a):
         t = a[0]
+        if t in ("cmp", "not", "and", "or", "truth"):
+            return 1.0 if self.truth(a) else 0.0
         if t == "p":
             return self.poly(a[1])
         if t == "call" and a[1] in INTERPRETED and len(a[2]) == 1 and not a[3]:
@@ -1834,11 +1836,20 @@ def equivalent(a, b, trials=TRIALS):
         wit = None
         for attempt in range(8):
             val = Valuation(t, salt="s%d" % attempt, base=None if attempt == 0 else Valuation(t, salt="s0"))
+            ea = eb = False
             try:
-                va, vb = val.value(a), val.value(b)
+                va = val.value(a)
             except (ValueError, OverflowError, ZeroDivisionError):
-                continue
-            ok = _close_vals(va, vb)
+                va, ea = "<undefined>", True
+            try:
+                vb = val.value(b)
+            except (ValueError, OverflowError, ZeroDivisionError):
+                vb, eb = "<undefined>", True
+            if ea and eb:
+                continue  # both sides are undefined at this valuation: no verdict
+            # one side is undefined (log of a non-positive number, division by zero) where the other is not:
+            # the terms differ at this valuation
+            ok = (not ea and not eb) and _close_vals(va, vb)
             verdicts.append(ok)
             if not ok and wit is None:
                 wit = {"trial": t, "left": va, "right": vb}
